@@ -203,114 +203,128 @@ pub fn get_extension(s: &str) -> String {
     }
 }
 
-/// Whole bytes of a scaled size. Decimal fractions are not exact in binary floating point: 2.01 * 1000.0 is
+/// A scaled size. Decimal fractions are not exact in binary floating point: 2.01 * 1000.0 is
 /// 2009.9999999999998, which must not be cut to 2009. A product that is a whole number up to the precision of
-/// the multiplication is that number; a real fraction of a byte is dropped as before.
-fn to_bytes(size: f64) -> u64 {
+/// the multiplication is that number.
+fn snap(size: f64) -> f64 {
     let nearest = size.round();
     if (size - nearest).abs() <= nearest.abs() * 4.0 * f64::EPSILON {
-        nearest as u64
+        nearest
     } else {
-        size as u64
+        size
     }
 }
 
 pub fn parse_filesize(s: &str) -> Option<u64> {
     let string = s.to_string().to_ascii_lowercase().replace(" ", "");
+
+    // whole numbers of bytes are taken as they are (a 64-bit integer does not fit a float)
+    if let Ok(size) = string.trim_end_matches('b').parse::<u64>() {
+        if string.len() - string.trim_end_matches('b').len() <= 1 {
+            return Some(size);
+        }
+    }
+
+    parse_filesize_exact(s).map(|size| size as u64)
+}
+
+/// The number of bytes a size literal denotes, as a number: `0.3k` is 307.2, `-1k` is -1024
+pub fn parse_filesize_exact(s: &str) -> Option<f64> {
+    let string = s.to_string().to_ascii_lowercase().replace(" ", "");
     let length = string.len();
 
     if length > 1 && string.ends_with("k") {
         return match &string[..(length - 1)].parse::<f64>() {
-            Ok(size) => Some(to_bytes(*size * 1024.0)),
+            Ok(size) => Some(snap(*size * 1024.0)),
             _ => None,
         };
     }
 
     if length > 2 && string.ends_with("kb") {
         return match &string[..(length - 2)].parse::<f64>() {
-            Ok(size) => Some(to_bytes(*size * 1000.0)),
+            Ok(size) => Some(snap(*size * 1000.0)),
             _ => None,
         };
     }
 
     if length > 3 && string.ends_with("kib") {
         return match &string[..(length - 3)].parse::<f64>() {
-            Ok(size) => Some(to_bytes(*size * 1024.0)),
+            Ok(size) => Some(snap(*size * 1024.0)),
             _ => None,
         };
     }
 
     if length > 1 && string.ends_with("m") {
         return match &string[..(length - 1)].parse::<f64>() {
-            Ok(size) => Some(to_bytes(*size * 1024.0 * 1024.0)),
+            Ok(size) => Some(snap(*size * 1024.0 * 1024.0)),
             _ => None,
         };
     }
 
     if length > 2 && string.ends_with("mb") {
         return match &string[..(length - 2)].parse::<f64>() {
-            Ok(size) => Some(to_bytes(*size * 1000.0 * 1000.0)),
+            Ok(size) => Some(snap(*size * 1000.0 * 1000.0)),
             _ => None,
         };
     }
 
     if length > 3 && string.ends_with("mib") {
         return match &string[..(length - 3)].parse::<f64>() {
-            Ok(size) => Some(to_bytes(*size * 1024.0 * 1024.0)),
+            Ok(size) => Some(snap(*size * 1024.0 * 1024.0)),
             _ => None,
         };
     }
 
     if length > 1 && string.ends_with("g") {
         return match &string[..(length - 1)].parse::<f64>() {
-            Ok(size) => Some(to_bytes(*size * 1024.0 * 1024.0 * 1024.0)),
+            Ok(size) => Some(snap(*size * 1024.0 * 1024.0 * 1024.0)),
             _ => None,
         };
     }
 
     if length > 2 && string.ends_with("gb") {
         return match &string[..(length - 2)].parse::<f64>() {
-            Ok(size) => Some(to_bytes(*size * 1000.0 * 1000.0 * 1000.0)),
+            Ok(size) => Some(snap(*size * 1000.0 * 1000.0 * 1000.0)),
             _ => None,
         };
     }
 
     if length > 3 && string.ends_with("gib") {
         return match &string[..(length - 3)].parse::<f64>() {
-            Ok(size) => Some(to_bytes(*size * 1024.0 * 1024.0 * 1024.0)),
+            Ok(size) => Some(snap(*size * 1024.0 * 1024.0 * 1024.0)),
             _ => None,
         };
     }
 
     if length > 1 && string.ends_with("t") {
         return match &string[..(length - 1)].parse::<f64>() {
-            Ok(size) => Some(to_bytes(*size * 1024.0 * 1024.0 * 1024.0 * 1024.0)),
+            Ok(size) => Some(snap(*size * 1024.0 * 1024.0 * 1024.0 * 1024.0)),
             _ => None,
         };
     }
 
     if length > 2 && string.ends_with("tb") {
         return match &string[..(length - 2)].parse::<f64>() {
-            Ok(size) => Some(to_bytes(*size * 1000.0 * 1000.0 * 1000.0 * 1000.0)),
+            Ok(size) => Some(snap(*size * 1000.0 * 1000.0 * 1000.0 * 1000.0)),
             _ => None,
         };
     }
 
     if length > 3 && string.ends_with("tib") {
         return match &string[..(length - 3)].parse::<f64>() {
-            Ok(size) => Some(to_bytes(*size * 1024.0 * 1024.0 * 1024.0 * 1024.0)),
+            Ok(size) => Some(snap(*size * 1024.0 * 1024.0 * 1024.0 * 1024.0)),
             _ => None,
         };
     }
 
     if length > 1 && string.ends_with("b") {
-        return match &string[..(length - 1)].parse::<u64>() {
-            Ok(size) => Some(size * 1),
+        return match &string[..(length - 1)].parse::<f64>() {
+            Ok(size) => Some(*size),
             _ => None,
         };
     }
 
-    string.parse::<u64>().ok()
+    string.parse::<u64>().ok().map(|size| size as f64)
 }
 
 static FILE_SIZE_FORMAT_REGEX: LazyLock<Regex> = LazyLock::new(|| {
